@@ -151,7 +151,7 @@ class ConstructInterface(Interface):
     def construct_error(self, eng, st, ec):
         st.assume(eng.exc_sub_term(ec, 'ConstructError'))
 
-    def wrapper_stream(self, eng, stream, st):
+    def wrapper_stream(self, eng, stream, st, writes=True):
         """a RestreamedBytesIO handed to a sub-construct: the sub-construct may call any of its methods any number of times,
         so afterwards its buffers and the underlying stream are arbitrary (nothing is assumed; in particular NOT that short
         writes of the underlying stream were noticed)"""
@@ -172,7 +172,7 @@ class ConstructInterface(Interface):
                 # only one that writes) does not accept a short write silently (contract of RestreamedBytesIO.write)
                 self.havoc_adv(eng, st, sub)
             else:
-                havoc_object(eng, st, sub, 'rs_sub')
+                havoc_object(eng, st, sub, 'rs_sub', writes=writes)
 
     def sub_on_wrapper(self, eng, sc, stream, ctx, path, st, what):
         H, D = self.H(st)
@@ -183,7 +183,7 @@ class ConstructInterface(Interface):
         for s2, isgood in ((good, True), (bad, False)):
             if s2 is None:
                 continue
-            self.wrapper_stream(eng, stream, s2)
+            self.wrapper_stream(eng, stream, s2, writes=(what != 'parse'))
             self.apply_heap_outcome(eng, s2, fresh('W_H', 'Heap'), fresh('W_D', 'Dom'), c)
             if isgood:
                 out.append((s2, VDyn(fresh('W_val', t.VAL))))
